@@ -1857,6 +1857,8 @@ fn search(seed: u64, thorough: bool, st: &mut Stats, fonts: &[(&'static str, Vec
     let n_mut: u64 = envn("C20_NMUT", if thorough { 5_000_000 } else { 300_000 });
     let threads = envn("C20_THREADS", 16);
     let trace = std::env::var("C20_TRACE").is_ok();
+    // development aid: restrict the mutation search to one API group (e.g. 8 = klippa)
+    let only_api: Option<u64> = std::env::var("C20_ONLY_API").ok().and_then(|v| v.parse().ok());
     let fonts_ref = fonts;
     let mut results: Vec<(BTreeMap<String, Found>, BTreeMap<String, u64>)> = vec![];
     std::thread::scope(|sc| {
@@ -1901,7 +1903,10 @@ fn search(seed: u64, thorough: bool, st: &mut Stats, fonts: &[(&'static str, Vec
                         if (api == 9 || api == 12) && !fonts_ref[m.font].0.starts_with("IFT:") {
                             continue;
                         }
-                        if api == 8 && i % 4 != 0 {
+                        if only_api.map(|o| o != api as u64).unwrap_or(false) {
+                            continue;
+                        }
+                        if api == 8 && i % 4 != 0 && only_api.is_none() {
                             continue;
                         }
                         let sel = seed ^ i.wrapping_mul(31) ^ api as u64;
@@ -1909,12 +1914,6 @@ fn search(seed: u64, thorough: bool, st: &mut Stats, fonts: &[(&'static str, Vec
                             eprintln!("MUT {} {} api={} {:?}", i, fonts_ref[m.font].0, API_NAMES[api], m.edits.iter().map(|(w, _, b)| format!("{w}={b:?}")).collect::<Vec<_>>());
                         }
                         *counts.entry(format!("mut.api.{}", API_NAMES[api])).or_insert(0) += 1;
-                        // known hang (reported in notes/C20.md, belongs to C02): the auto-hinter's long-blue scan
-                        // loops forever on some mutated outlines of this font
-                        if api == 5 && fonts_ref[m.font].0.contains("HEBREW") && m.edits.iter().any(|(w, _, _)| w.starts_with("glyf") || w.starts_with("head") || w.starts_with("loca")) {
-                            *counts.entry("mut.skipped_known_autohint_hang".into()).or_insert(0) += 1;
-                            continue;
-                        }
                         let res = {
                             if worker.is_none() {
                                 worker = Some(spawn_worker());
